@@ -147,6 +147,16 @@ Definition prim_remove_entry_at (st : state) (p : path) (pos : nat) : state :=
     let '(n', ops) := remove_index_entry_at (node_at st p) pos in put_idx st p n' ops
   else st.
 
+(* DataNode::InsertIndexEntryAt(pos, this, key) on the own node at p, by a subclass that respects the documented
+   preconditions (key is a child, is not in the index yet, pos is a valid position) and, since it edits an
+   index by hand, switches the own-subtree short cut of GetDataCallback off (_indexingPresent = true) *)
+Definition prim_insert_entry_at (st : state) (s : nat) (p : path) (pos : nat) (k : name) : state :=
+  if own s p && has_node (st_tree st) p && mem k (kids_of (st_tree st) p)
+     && negb (mem k (index_at (st_tree st) p)) && (pos <=? length (index_at (st_tree st) p)) then
+    let '(n', ops) := insert_index_entry_at (kids_of (st_tree st) p) (node_at st p) pos k in
+    set_ipres (put_idx st p n' ops) s
+  else st.
+
 (* StorageReflectSession::SetDataNode(path, data, flags{ADDTOINDEX}, optInsertBefore); cur = the node reached so far *)
 Fixpoint set_data_node_aux (st : state) (s : nat) (cur : path) (rel : path) (addidx : bool) (b : bspec) : state :=
   match rel with
@@ -271,6 +281,7 @@ Inductive cmd :=
 | AClone (src : path) (dstrel : path) (addidx : bool) (b : bspec)    (* subclass API CloneDataNodeSubtree *)
 | ARestore (src : path) (dstrel : path) (addidx : bool)              (* subclass API Save.. + RestoreNodeTreeFromMessage *)
 | ARemoveEntryAt (rel : path) (pos : nat)                            (* DataNode::RemoveIndexEntryAt on an own node *)
+| AInsertEntryAt (rel : path) (pos : nat) (k : name)                 (* DataNode::InsertIndexEntryAt on an own node *)
 | CDetach                                                            (* the client closes its connection *)
 | CAttach.                                                           (* a new session is attached (id = number of sessions so far) *)
 
@@ -296,6 +307,7 @@ Definition handle (cfg : config) (st : state) (s : nat) (c : cmd) : state :=
   | ARestore src dstrel addidx =>
       if has_node (st_tree st) src then restore (S (length (st_tree st))) (st_tree st) st s src dstrel addidx else st
   | ARemoveEntryAt rel pos => prim_remove_entry_at st (NS s :: rel) pos
+  | AInsertEntryAt rel pos k => prim_insert_entry_at st s (NS s :: rel) pos k
   | CDetach => remove_child_rec st [NS s]
   | CAttach => st
   end.
